@@ -23,6 +23,8 @@ func init() {
 			c.floor("PURECALL", 0)
 		},
 		SelfTest: []Mutation{
+			{Name: "component-wise maximum takes y from x", File: "model2d/coords.go",
+				Old: "return Coord{math.Max(c.X, c1.X), math.Max(c.Y, c1.Y)}", New: "return Coord{math.Max(c.X, c1.X), math.Max(c.Y, c1.X)}", Rule: "AXISCALL", Expect: "Max"},
 			{Name: "2D search refinement computed and dropped", File: "model2d/marching.go",
 				Old: "\treturn msSearch(s, delta, iters, mesh)\n", New: "\tmsSearch(s, delta, iters, mesh)\n\treturn mesh\n", All: true, Rule: "PURECALL", Expect: "msSearch"},
 			{Name: "bisection range keeps the outside end as 'inside'", File: "model3d/surface_estimator.go",
